@@ -621,3 +621,5 @@ def run(report, repo):
   report.guard(r4_r5_locks, report, repo)
   report.guard(r6_bounded, report, repo)
   report.guard(r7_buffer, report, repo)
+  from sa.rules import extra4  # pylint: disable=g-import-not-at-top
+  report.guard(extra4.read_until_close_drains, report, repo, 'C14-R9')
